@@ -27,7 +27,15 @@ def cases(ctx, n_models, n_states, zmax):
         if fixed.get("RADIAL_DYNAMICS"):
             for y in ys:
                 y[:m.nq] = np.minimum(y[:m.nq], 1e7); y[m.nq:] = np.maximum(y[m.nq:], 5.0 * np.maximum(m.q, 1))
+            # strongly compensated beam (trap depths shrink / change sign)
+            ys += [advcorr.compensated_state(rng, m) for _ in range(2)]
         yield m, desc, ys
+    # beam energy on a dielectronic-recombination resonance (otherwise the DR terms are identically zero)
+    for k in range(max(2, n_models // 2)):
+        fixed = {"IONISATION_HEATING": True} if k % 2 == 0 else {}
+        if k % 3 == 0: fixed.update(RECOMPUTE_CROSS_SECTIONS=True, OVERRIDE_FWHM=False)
+        m, desc = advcorr.resonant_model(rng, **fixed)
+        yield m, desc, [gens.make_state(rng, m) for _ in range(n_states)]
 
 
 def run(ctx):
@@ -78,6 +86,11 @@ def search(ctx, prop=None):
     for k in range(nm):
         m, desc = advcorr.build_model(rng, n_grid=60, zmax=30, RADIAL_DYNAMICS=False)
         todo.append((m, desc, [gens.make_state(rng, m) for _ in range(3)]))
+    for k in range(nm):
+        m, desc = advcorr.resonant_model(rng, IONISATION_HEATING=True, **({"RECOMPUTE_CROSS_SECTIONS": True, "OVERRIDE_FWHM": False} if k % 2 else {}))
+        todo.append((m, desc, [gens.make_state(rng, m) for _ in range(2)]))
+        m, desc = advcorr.build_model(rng, n_grid=60, zmax=30, RADIAL_DYNAMICS=True, ESCAPE_AXIAL=True, ESCAPE_RADIAL=True)
+        todo.append((m, desc, [advcorr.compensated_state(rng, m) for _ in range(2)]))
     for m, desc, ys in todo:
         for y in ys:
             for v in advstmt.stmt_balance(m, y, desc):
@@ -88,6 +101,8 @@ def search(ctx, prop=None):
         if prop == "C05":
             V += advstmt.stmt_switches(desc, ys[0])
         if len(V) > 10: break
+    if prop == "C04":
+        V += advstmt.stmt_heatflow(rng, 12 if (ctx.thorough or ctx.failures) else 4)
     return V
 
 
@@ -98,6 +113,12 @@ def replay(ctx, data, prop=None):
     m = advcorr.rebuild(inp)
     y = np.asarray(inp["y"], float)
     desc = {k: inp[k] for k in ("device", "targets", "gases", "options")}
+    if v.get("key", {}).get("clause") == "heat_hot_to_cold":
+        from ebisim.simulation._result import Rate
+        dy, ex = advcorr.impl_rhs(m, y); ct = np.array(ex[Rate.T_COLLISIONAL_THERMALISATION]); nq = m.nq
+        idx = [int(i) for i in np.nonzero(y[:nq] > 1e-3)[0]]
+        bad = len(idx) == 2 and any(np.sign(ct[idx[a]]) != np.sign(y[nq + idx[b]] - y[nq + idx[a]]) for a, b in ((0, 1), (1, 0)))
+        return v if bad else None
     res = advstmt.stmt_balance(m, y, desc) + (advstmt.stmt_rates(m, y, desc) if (prop or PROP) == "C05" else [])
     r = [x for x in res if x["key"] == v["key"]]
     return r[0] if r else None
